@@ -42,7 +42,7 @@ def handleDegen : P String := do
     let one := (if u.length > 4 then u.take 2 ++ (match u.getLast? with | some x => [x] | none => []) else u) ++ [absentName]
     let pairs := one.flatMap fun x => one.map fun y => (x, y)
     let first := u.take 1
-    let sets : List (List Nat) := [[], first, u, first ++ [absentName]]
+    let sets : List (List Nat) := [[], first, u, first ++ [absentName], first ++ first, u ++ first]
     let sp' (l : List String) : String := if l.isEmpty then "." else joinWith " " l
     let dir := sp.directed
     let multi := sp.multi
